@@ -28,6 +28,7 @@ PROP_MODULES = {
     "C10": ["contracts.c10"],
     "C07": ["contracts.c07"],
     "C20": ["contracts.c20"],
+    "C06": ["contracts.c06"],
 }
 
 
